@@ -1,7 +1,7 @@
 (* C19 -- no input makes a reader hang: the parts a theorem can carry.  Termination of a Gallina function is trivial; what is
    proved is that the FUEL each link- or stream-driven loop is given -- a function of the input length alone -- is never exhausted,
    for every byte string, so the modelled loops stop after at most that many iterations whatever the links / stream say. *)
-From Pyctr Require Import Base.Prelude Base.ListExt Base.PyInt Base.PySlice Model.Romfs Model.Lzss Proofs.RomfsProofs Proofs.LzssProofs.
+From Pyctr Require Import Base.Prelude Base.ListExt Base.PyInt Base.PySlice Model.Romfs Model.Lzss Model.IvfcBound Proofs.RomfsProofs Proofs.LzssProofs Proofs.IvfcBoundProofs.
 
 (* RomFS: the first-child / next-sibling walk over the two metadata tables, with fuel len(dirmeta)+1 / len(filemeta)+1 *)
 Theorem C19_romfs_walk_bounded : forall dirmeta filemeta, bytes_ok dirmeta -> bytes_ok filemeta ->
@@ -18,6 +18,23 @@ Print Assumptions C19_lzss_bounded.
 Theorem C19_lzss_size_cap : forall code, len code + le_decode (pyslice code (Some (-4)) None) > CODE_MAX -> exists e, decompress code = Err e.
 Proof. exact decompress_size_cap. Qed.
 Print Assumptions C19_lzss_size_cap.
+
+(* Save partitions: the block loop of the verified level-4 read (as repaired: it stops at the first block the file does not hold).
+   Whatever size the descriptor CLAIMS for level 4 -- a 64-bit field -- and whatever position and size are asked for, one read ends within
+   a fuel computed from the LENGTH of the level file alone, and fetches at most (length / block size) + 2 blocks. *)
+Theorem C19_lv4_read_bounded : forall data bs claimed pos n, 0 < bs -> 0 <= pos ->
+  read_blocks data bs claimed pos n <> Err OutOfFuel.
+Proof. intros. now apply read_blocks_total. Qed.
+Print Assumptions C19_lv4_read_bounded.
+
+Theorem C19_lv4_read_output_bounded : forall data bs claimed pos n r, 0 < bs -> 0 <= pos ->
+  read_blocks data bs claimed pos n = Ok r -> Z.of_nat (length r) <= len data / bs + 2.
+Proof. intros. eapply read_blocks_bounded; eassumption. Qed.
+Print Assumptions C19_lv4_read_output_bounded.
+
+Example C19_lv4_nonvacuous :
+  read_blocks [1; 2; 3; 4; 5; 6; 7; 8; 9; 10] 4 (2 ^ 63) 0 (-1) = Ok [[1; 2; 3; 4]; [5; 6; 7; 8]; [9; 10]].
+Proof. exact bound_nonvacuous. Qed.
 
 (* a sibling link pointing back into the chain is an error, not a loop (smallest instance: one directory entry whose next-sibling
    link is its own offset) *)
